@@ -751,6 +751,7 @@ func riosimMain(c *Ctx) {
 		seed := c.RunSeed(i)
 		r := rand.New(rand.NewSource(seed))
 		rc := rioGen(r, c.Mode, c.Thorough())
+		c.Begin(seed, rc)
 		vs, evals := rioRun(c, rc, simrt.NewTape(seed), true)
 		c.Res.Runs++
 		c.Res.Evaluations += evals
